@@ -69,6 +69,7 @@ func cmdCheck(args []string) int {
 	keep := fs.Bool("keep", false, "keep all smt files")
 	verbose := fs.Bool("v", false, "verbose")
 	noEvidence := fs.Bool("no-evidence", false, "do not write evidence (debug runs)")
+	writeBindings := fs.Bool("write-bindings", false, "record which variables the contract names denote on this tree into baseline/bindings.json (run on the pinned tree only)")
 	_ = fs.Parse(args)
 	t0 := time.Now()
 	seed := 0
@@ -114,6 +115,11 @@ func cmdCheck(args []string) int {
 		}
 		return Sort(structSortName(t)), nil
 	}
+	bindPath := filepath.Join(*vdir, "baseline", "bindings.json")
+	if data, err := os.ReadFile(bindPath); err == nil {
+		_ = json.Unmarshal(data, &globalBindings)
+	}
+	globalBindRecOn = *writeBindings
 	if err := S.loadDir(filepath.Join(*vdir, "specs"), ".spec"); err != nil {
 		return engineFailure(id, outDir, "spec files: "+err.Error())
 	}
@@ -441,6 +447,24 @@ func cmdCheck(args []string) int {
 	}
 	b, _ := json.MarshalIndent(led, "", " ")
 	_ = os.WriteFile(filepath.Join(outDir, "ledger.json"), b, 0o644)
+	if *writeBindings {
+		merged := globalBindings
+		if merged == nil {
+			merged = map[string]map[string]*BindDesc{}
+		}
+		for _, e := range globalBindRecs {
+			for fnk, m := range e.bindRec {
+				if merged[fnk] == nil {
+					merged[fnk] = map[string]*BindDesc{}
+				}
+				for n, d := range m {
+					merged[fnk][n] = d
+				}
+			}
+		}
+		bb, _ := json.MarshalIndent(merged, "", " ")
+		_ = os.WriteFile(bindPath, bb, 0o644)
+	}
 	if !*keep {
 		// keep only failing scripts
 		for _, ob := range all {
